@@ -116,6 +116,17 @@ func genSource(repo, out string) {
 		ns := sha256.Sum256([]byte(e.name))
 		fmt.Fprintf(&b, "  (%s, 0x%x, 0x%s)%s\n", leanStr(e.name), ns[:8], e.hash, sep)
 	}
+	b.WriteString("]\n\n/-- every package-level `var` of the three packages (mutable state that could carry something from one call to the next) -/\ndef packageVars : List String := [")
+	first := true
+	for _, e := range entries {
+		if strings.Contains(e.name, ":var ") {
+			if !first {
+				b.WriteString(", ")
+			}
+			first = false
+			b.WriteString(leanStr(e.name))
+		}
+	}
 	b.WriteString("]\n\nend Uhppote.Gen.Source\n")
 	writeIfChanged(filepath.Join(out, "Source.lean"), b.String())
 	if *srcDir != "" {
